@@ -191,3 +191,313 @@ simple("C06", genhist.gen_lap, 400, 6000,
        ["laplacian_symmetric", "row_sums_zero", "diagonal_is_valence", "offdiagonal_is_minus_multiplicity", "apply_eq_spec", "apply_additive", "apply_eq_sequential_moves", "script_set", "script_update"],
        "non-trivial: n>=2 and at least 3 script operations")
 PROPS["C06"]["strata"] = lambda rec: [f"n={rec['scn'].get('n')}", f"mag={rec['scn'].get('_mag')}"]
+
+
+# ============================================================================ algorithm family
+
+def tag_cmp(scns, cmp_keys, rel=None):
+    for s in scns:
+        s["_cmp"] = cmp_keys
+        if rel is not None:
+            s["_rel"] = rel
+    return scns
+
+
+def algo_strata(rec):
+    s = rec["scn"]
+    labs = [f"op={s.get('op')}", f"n={s.get('n')}", f"kind={s.get('_kind')}"]
+    for k in ("_band", "_debt", "opt", "pool", "_pair", "_second", "strat", "max"):
+        if k in s:
+            labs.append(f"{k.strip('_')}={s[k]}")
+    return labs
+
+
+def algo_nontrivial(rec):
+    l = rec["lean"]
+    return graph_nontrivial(rec["scn"]) and l not in ("ERR", "NOFUEL")
+
+
+# ---- C02
+def c02_generate(rng, tier):
+    a = gen_ewd_cases(rng, count(tier, 200, 3000), nmax=count(tier, 6, 8), viz_share=0, modes=(False,))
+    a += gen_chain_debt_cases(rng, count(tier, 60, 1000), modes=(False,), viz_share=0)
+    tag_cmp(a, ["D", "verdict"], rel=["verdict"])
+    b = genhist.gen_api(rng, count(tier, 200, 3000), nmax=count(tier, 6, 7))
+    tag_cmp(b, ["q_reduction", "is_q_reduced", "is_winnable"], rel=["is_winnable"])
+    return a + b
+
+
+def c02_judge(rec):
+    """the property itself: the reduced divisor must be the q-reduced representative for SOME
+    vertex q of minimum degree in the input; is_q_reduced must say whether the input is that"""
+    s, l = rec["scn"], rec["lean"]
+    fails = []
+    for hs, p in rec["py"].items():
+        if not isinstance(p, dict) or not isinstance(l, dict):
+            continue
+        if s["op"] == "ewd" and l.get("_reduced_by_sink") is not None:
+            allowed = [x[1] for x in l["_reduced_by_sink"] if x]
+            if p.get("D") is not None and p["D"] not in allowed:
+                fails.append(f"returned divisor {p['D']} is not the q-reduced form of the input for any minimum-degree sink (allowed: {allowed})")
+            if p.get("D") is not None and p.get("verdict") != all(x >= 0 for x in p["D"]):
+                fails.append("verdict differs from 'the output has no debt'")
+        if s["op"] == "api" and l.get("_spec_is_q_reduced") is not None:
+            if p.get("is_q_reduced") != l["_spec_is_q_reduced"]:
+                fails.append(f"is_q_reduced returned {p.get('is_q_reduced')} but the input {'is' if l['_spec_is_q_reduced'] else 'is not'} its own q-reduced representative")
+    return fails
+
+
+def k1_matcher(rec, detail, fails):
+    """K1: is_q_reduced returns True on a divisor that is not q-reduced (and nothing else is wrong)"""
+    if rec["scn"].get("op") != "api" or detail is not None:
+        return False
+    l = rec["lean"]
+    ok = all(isinstance(p, dict) and p.get("is_q_reduced") is True for p in rec["py"].values())
+    return ok and l.get("_spec_is_q_reduced") is False and all("is_q_reduced returned True" in f for f in fails)
+
+
+MATCHERS["K1"] = k1_matcher
+NONTRIVIAL_RULE["C02"] = "non-trivial: n>=3 with a multi-edge or cycle and the reduction ran"
+PROPS["C02"] = {"generate": c02_generate, "judge": c02_judge, "strata": algo_strata, "nontrivial": algo_nontrivial,
+                "rule": "EWD plain mode and the q_reduction / is_q_reduced / is_winnable wrappers on generated connected multigraphs x divisors (debt on several vertices, ties for the minimum); oracle: the verified reduction w.r.t. every minimum-degree sink",
+                "theorems": ["qred_linEq", "qred_is_qreduced", "qred_unique", "verdict_iff_no_debt_at_q"]}
+
+
+# ---- C03
+def c03_generate(rng, tier):
+    a = genhist.gen_rank(rng, count(tier, 150, 1500), nmax=count(tier, 5, 6), maxdeg=count(tier, 5, 7))
+    if tier == "thorough":
+        for s in a[:40]:
+            s["pool"] = "real"
+    else:
+        for s in a[:6]:
+            s["pool"] = "real"
+    return tag_cmp(a, ["rank"])
+
+
+NONTRIVIAL_RULE["C03"] = "non-trivial: n>=3 with a multi-edge or cycle, winnable input (rank loop ran)"
+PROPS["C03"] = {"generate": c03_generate, "strata": algo_strata,
+                "nontrivial": lambda rec: algo_nontrivial(rec) and isinstance(rec["lean"], dict) and rec["lean"].get("rank") not in (-1, "ERR"),
+                "rule": "rank()/r() in both modes on generated connected multigraphs, divisors from all four degree bands, worker pool real (fails to pickle -> fallback) / stubbed to fail at once / replaced by a thread pool (pool path exercised)",
+                "theorems": []}
+
+
+# ---- C04
+def c04_generate(rng, tier):
+    a = genhist.gen_gonality(rng, count(tier, 60, 600), nmax=count(tier, 5, 6))
+    a += genhist.gen_play(rng, count(tier, 150, 2000))
+    a += genhist.gen_dhar_strategy(rng, count(tier, 150, 2000))
+    a += genhist.gen_enhanced_dhar(rng, count(tier, 60, 600), nmax=count(tier, 5, 6))
+    return tag_cmp(a, None)
+
+
+NONTRIVIAL_RULE["C04"] = "non-trivial: n>=3 with a multi-edge or cycle"
+PROPS["C04"] = {"generate": c04_generate, "strata": algo_strata, "nontrivial": algo_nontrivial,
+                "rule": "gonality() with/without strategies and cut-offs 0..n+1; single games and strategy tests on placements (also non-effective, wrong chip count, unknown opponent vertex); per-sink Dhar strategy tests and minimal-strategy search for every sink",
+                "theorems": []}
+
+
+# ---- C07
+def c07_generate(rng, tier):
+    return tag_cmp(genhist.gen_lin_equiv(rng, count(tier, 400, 6000), nmax=count(tier, 6, 8)), ["equiv"])
+
+
+NONTRIVIAL_RULE["C07"] = "non-trivial: n>=3 with a multi-edge or cycle and the two divisors differ"
+PROPS["C07"] = {"generate": c07_generate, "strata": algo_strata,
+                "nontrivial": lambda rec: algo_nontrivial(rec) and rec["scn"]["D1"] != rec["scn"]["D2"],
+                "rule": "pairs: identical / related by a random integer script / same degree other class / different degree; second divisor on the same graph object, on a separately built equal copy, or on another multigraph",
+                "theorems": []}
+
+
+# ---- C08
+def c08_generate(rng, tier):
+    a = genhist.gen_dhar(rng, count(tier, 400, 6000), nmax=count(tier, 6, 8))
+    return tag_cmp(a, ["after_debt", "unburnt", "after_fire", "superstable", "borrows", "argtotal"],
+                   rel=["after_debt", "unburnt", "after_fire", "superstable", "argtotal"])
+
+
+NONTRIVIAL_RULE["C08"] = "non-trivial: n>=3 with a multi-edge or cycle"
+PROPS["C08"] = {"generate": c08_generate, "strata": algo_strata, "nontrivial": algo_nontrivial,
+                "rule": "DharAlgorithm on generated connected multigraphs x every sink x divisors with debt anywhere: send_debt_to_q, run, get_maximal_legal_firing_set, legal_set_fire, is_superstable of the concentrated configuration",
+                "theorems": []}
+
+
+# ---- C09
+def c09_generate(rng, tier):
+    a = gen_ewd_cases(rng, count(tier, 300, 4000), nmax=count(tier, 6, 8), viz_share=0.1)
+    a += gen_chain_debt_cases(rng, count(tier, 60, 1000))
+    return tag_cmp(a, ["orient", "indeg", "outdeg", "full", "verdict"])
+
+
+def c09_judge(rec):
+    """certificate checked on the implementation's own output"""
+    s = rec["scn"]
+    fails = []
+    n = s["n"]
+    adj = [[0] * n for _ in range(n)]
+    for a, b, k in s["edges"]:
+        adj[a][b] += k
+        adj[b][a] += k
+    for hs, p in rec["py"].items():
+        if not isinstance(p, dict) or p.get("orient") is None:
+            continue
+        dirs = {(u, v) for u, v in p["orient"]}
+        for u in range(n):
+            for v in range(u + 1, n):
+                if adj[u][v] and ((u, v) in dirs) == ((v, u) in dirs):
+                    fails.append(f"edge {u}-{v} is not oriented exactly one way")
+        indeg = [sum(adj[u][v] for u in range(n) if (u, v) in dirs) for v in range(n)]
+        if indeg != p["indeg"]:
+            fails.append("reported in-degrees differ from the orientation")
+        # acyclic: Kahn
+        rem, deg_in = set(range(n)), {v: sum(1 for u in range(n) if (u, v) in dirs) for v in range(n)}
+        srcs = [v for v in range(n) if deg_in[v] == 0]
+        if len(srcs) != 1:
+            fails.append(f"sources {srcs}: expected exactly one")
+        order = []
+        stack = list(srcs)
+        while stack:
+            u = stack.pop()
+            order.append(u)
+            for v in range(n):
+                if (u, v) in dirs:
+                    deg_in[v] -= 1
+                    if deg_in[v] == 0:
+                        stack.append(v)
+        if len(order) != n:
+            fails.append("orientation has a directed cycle")
+        if len(srcs) == 1:
+            q = srcs[0]
+            D = p["D"]
+            for v in range(n):
+                if v != q and not D[v] < indeg[v]:
+                    fails.append(f"vertex {v} holds {D[v]} chips, in-degree {indeg[v]}")
+            if p["verdict"] is False and not all(D[v] <= indeg[v] - 1 for v in range(n)):
+                fails.append("unwinnable verdict but the divisor is not dominated by in-degree minus one")
+    return fails
+
+
+NONTRIVIAL_RULE["C09"] = "non-trivial: n>=3 with a multi-edge or cycle and an orientation was returned"
+PROPS["C09"] = {"generate": c09_generate, "judge": c09_judge, "strata": ewd_strata, "nontrivial": ewd_nontrivial,
+                "rule": "EWD in both modes (orientation returned on the non-shortcut path); every returned orientation is compared edge by edge with the model's and re-checked directly: full, acyclic, unique source, in-degree bound, domination",
+                "theorems": []}
+
+
+# ---- C14
+def c14_generate(rng, tier):
+    a = genhist.gen_greedy(rng, count(tier, 250, 3000), nmax=count(tier, 6, 8))
+    seeds = ["0", "1", "2"] if tier == "quick" else [str(i) for i in range(16)]
+    for s in a:
+        s["_seeds"] = seeds
+    return tag_cmp(a, ["success", "script", "final", "certificate", "arg"])
+
+
+NONTRIVIAL_RULE["C14"] = "non-trivial: n>=3 with a multi-edge or cycle and at least one indebted vertex"
+PROPS["C14"] = {"generate": c14_generate, "strata": algo_strata,
+                "nontrivial": lambda rec: algo_nontrivial(rec) and any(x < 0 for x in rec["scn"]["deg"]),
+                "rule": "GreedyAlgorithm.play on generated connected multigraphs x divisors (debt magnitudes up to 12 so that the 10|V| budget is straddled), each case under 3 (quick) / 16 (thorough) PYTHONHASHSEED values so that the visiting order varies; the certificate is re-checked through the implementation's own CFLaplacian.apply",
+                "theorems": []}
+
+
+# ---- C17
+def permute_case(rng, base, E, d):
+    """the same mathematical input under another vertex naming: sigma maps old index -> new index"""
+    n = base["n"]
+    sigma = list(range(n))
+    rng.shuffle(sigma)
+    E2 = {(min(sigma[a], sigma[b]), max(sigma[a], sigma[b])): m for (a, b), m in E.items()}
+    d2 = [0] * n
+    for i in range(n):
+        d2[sigma[i]] = d[i]
+    order = list(range(n))
+    rng.shuffle(order)
+    s = {"n": n, "edges": gen.present_edges(rng, E2), "names": gen.gen_names(rng, n), "vlist": order,
+         "vaslist": rng.random() < 0.3, "_kind": base.get("_kind"), "_genus": base.get("_genus"), "_sigma": sigma}
+    return s, d2
+
+
+def c17_generate(rng, tier):
+    seeds = ["0", "1", "2"] if tier == "quick" else [str(i) for i in range(16)]
+    out = []
+    gid = 0
+    for i in range(count(tier, 120, 1500)):
+        g, E = gen.gen_graph(rng, 2, count(tier, 5, 6))
+        n = g["n"]
+        kind = rng.choice(["ewd", "ewd", "api", "rank", "gonality", "lin_equiv"])
+        d, band, debt = gen.gen_divisor(rng, n, g["_genus"], mag=3, debt=rng.choice(["tiemin", "tiemin", "any", "heavy"]))
+        if kind == "rank" and sum(d) > 5:
+            d[rng.randrange(n)] -= sum(d) - 5
+        d2 = genhist.apply_script(n, E, d, genhist.random_script(rng, n)) if rng.random() < 0.5 else [x + rng.choice([0, 0, 1, -1]) for x in d]
+        gid += 1
+        variants = [(dict(g, _sigma=list(range(n))), d, d2)]
+        for _ in range(2):
+            v, dd = permute_case(rng, g, E, d)
+            dd2 = [0] * n
+            for j in range(n):
+                dd2[v["_sigma"][j]] = d2[j]
+            variants.append((v, dd, dd2))
+        for v, dd, dd2 in variants:
+            s = dict(v)
+            order = list(range(n))
+            rng.shuffle(order)
+            if kind == "ewd":
+                s.update(op="ewd", deg=dd, opt=False, viz=False, dorder=order, _cmp=["verdict", "D"])
+            elif kind == "api":
+                s.update(op="api", deg=dd, _cmp=["is_winnable", "q_reduction"])
+            elif kind == "rank":
+                s.update(op="rank", deg=dd, opt=rng.random() < 0.5, pool="stub", _cmp=["rank"])
+            elif kind == "gonality":
+                s.update(op="gonality", strat=False, max=None, _cmp=["gonality"])
+            else:
+                s.update(op="lin_equiv", D1=dd, D2=dd2, _cmp=["equiv"])
+            s["_group"] = gid
+            s["_seeds"] = seeds
+            s["_debt"] = debt
+            s["_uniquemin"] = sorted(d)[0] != sorted(d)[1] if n > 1 else True
+            out.append(s)
+    return out
+
+
+def c17_group_judge(recs):
+    """cross-seed / cross-labelling comparison on the implementation itself"""
+    groups = {}
+    for r in recs:
+        g = r["scn"].get("_group")
+        if g is not None:
+            groups.setdefault(g, []).append(r)
+    bad = []
+    for g, rs in groups.items():
+        seen = {}
+        for r in rs:
+            s = r["scn"]
+            sigma = s["_sigma"]
+            inv = [0] * len(sigma)
+            for i, j in enumerate(sigma):
+                inv[j] = i
+            for hs, p in r["py"].items():
+                if not isinstance(p, dict):
+                    key = ("raw", json.dumps(p))
+                    obs = {"raw": p}
+                else:
+                    obs = {}
+                    for k in ("verdict", "is_winnable", "rank", "gonality", "equiv"):
+                        if k in p:
+                            obs[k] = p[k]
+                    for k in ("D", "q_reduction"):
+                        if k in p and isinstance(p[k], list) and s.get("_uniquemin"):
+                            obs[k] = [p[k][sigma[i]] for i in range(len(sigma))]   # back to base labelling
+                        elif k in p and isinstance(p[k], list):
+                            # ties for the minimum: the value must at least not depend on the hash seed
+                            obs[k + "@" + json.dumps(sigma)] = p[k]
+                for k, v in obs.items():
+                    if k in seen and seen[k][0] != v:
+                        bad.append((r, [f"{k}: {v} (hash seed {hs}, labelling {sigma}) vs {seen[k][0]} (hash seed {seen[k][1]}, labelling {seen[k][2]}) for the same mathematical input"]))
+                        break
+                    seen.setdefault(k, (v, hs, sigma))
+    return bad
+
+
+NONTRIVIAL_RULE["C17"] = "non-trivial: n>=3 with a multi-edge or cycle"
+PROPS["C17"] = {"generate": c17_generate, "group_judge": c17_group_judge, "strata": algo_strata, "nontrivial": algo_nontrivial,
+                "rule": "each mathematical input is presented three ways (vertex renaming that changes the sorted order, permuted vertex/edge/degree lists, swapped endpoints) and run under 3 (quick) / 16 (thorough) PYTHONHASHSEED values: EWD, is_winnable, q_reduction, rank, gonality, linear_equivalence; all answers must coincide with the model's single answer and with each other (reduced divisor renamed accordingly when the minimum is unique; never seed-dependent)",
+                "theorems": []}
